@@ -68,6 +68,8 @@ def api_objects(m, order=None, wrap=None):
     for e in els:
         Z, mass, a, lat = metadata(m, e)
         emb = b.potdef(lk["embed"][e]) if e in lk["embed"] else zero
+        if wrap is not None and e in lk["embed"]:
+            emb = wrap("embed", (e,), emb)
         if "density_fs" in m:
             dens = {}
             for o in els:
@@ -77,12 +79,21 @@ def api_objects(m, order=None, wrap=None):
                     dens[o] = wrap("density_fs", (e, o), dens[o])
         else:
             dens = b.potdef(lk["density"][e]) if e in lk["density"] else zero
+            if wrap is not None and e in lk["density"]:
+                dens = wrap("density", (e,), dens)
         eams.append(ap.EAMPotential(e, Z, mass, emb, dens, a, lat))
-    pairs = [ap.Potential(a, bb, b.potdef(pd)) for a, bb, pd in m["pair"]]
-    out = [pairs, eams]
+    def plist(kind):
+        out_ = []
+        for a, bb, pd in m[kind]:
+            f = b.potdef(pd)
+            if wrap is not None:
+                f = wrap(kind, (a, bb), f)
+            out_.append(ap.Potential(a, bb, f))
+        return out_
+    out = [plist("pair"), eams]
     if m["kind"] == "adp":
-        out.append([ap.Potential(a, bb, b.potdef(pd)) for a, bb, pd in m["dipole"]])
-        out.append([ap.Potential(a, bb, b.potdef(pd)) for a, bb, pd in m["quadrupole"]])
+        out.append(plist("dipole"))
+        out.append(plist("quadrupole"))
     return out
 
 
